@@ -1592,6 +1592,265 @@ def sweep_unit():
                        'local_type': local_type, 'sorted': sorted_hook, 'keywords': kw, 'opt_tests_as_issome': True, 'local_defs': True})
 
 
+# ----------------------------------------------------------------------------------------------------------
+# coordinates.py, _base.py, structures.py, multistructures.py :: the WKT writers   (C13)
+#
+# abstraction (that of Model/Wkt.lean): a float is an opaque `F`, `str(x)` is `io.shw x` (the only thing the writers do with a
+# number); a `Coordinate` is the record `GV.Wkt.Coord F`; a shape is what the WKT code reads of it: a point its coordinate,
+# a linestring its vertices, a polygon-like shape its `bounding_coords()` and its holes' `bounding_coords()` (`GV.Wkt.Poly F`,
+# whatever `k`), a multi-shape the list of its members; a full ring additionally the two circles `GeoCircle(center, r)
+# .bounding_coords()` and what `_draw_bounds()` returns (parameters `outerC innerC outerB innerB`).  Strings are Lean
+# strings: f-strings and `+` are `++`, `sep.join(xs)` is `String.intercalate` (the translator subset behind the hook
+# `wkt_text`).  The method a call reaches is found through
+# the class hierarchy of the four files (C3 order), the instance of a class's writer is the definition *that class* inherits.
+
+WKT_FILES = ('structures.py', 'multistructures.py', '_base.py', 'coordinates.py')
+
+
+def wkt_unit():
+    src = py2lean.SourceSet([_repo(f) for f in WKT_FILES])
+    for t, lt in {'WFl': 'F', 'WCoord': 'GV.Wkt.Coord F', 'Str': 'String', 'WPoint': 'GV.Wkt.Coord F',
+                  'WLine': 'List (GV.Wkt.Coord F)', 'WHole': 'List (GV.Wkt.Coord F)', 'WMPoint': 'List (GV.Wkt.Coord F)',
+                  'WMLine': 'List (List (GV.Wkt.Coord F))', 'WMPoly': 'List (GV.Wkt.Poly F)', 'WRing': 'RingView F',
+                  'WCen': 'Unit', 'WOutR': 'Unit', 'WInR': 'Unit',
+                  # readers: the whole text is the WKT value the model reads it as, a ring text its coordinate texts, a
+                  # coordinate text its tokens (`text.split(' ')`), a regex match of a coordinate that coordinate text
+                  'Chr': 'Char', 'WText': 'GV.Wkt.Wkt', 'WRingT': 'List GV.Wkt.CoordT', 'WCoordT': 'GV.Wkt.CoordT',
+                  'WMatch': 'GV.Wkt.CoordT', 'WTok': 'String', 'ZmDict': 'List (Char × F)', 'WK': 'Unit'}.items():
+        py2lean.LEAN_TYPE.setdefault(t, lt)
+    poly_like = {'WPolygon': ('GeoPolygon', 'polygon'), 'WBox': ('GeoBox', 'box'), 'WCircle': ('GeoCircle', 'circle'),
+                 'WEllipse': ('GeoEllipse', 'ellipse')}
+    for t in poly_like:
+        py2lean.LEAN_TYPE.setdefault(t, 'GV.Wkt.Poly F')
+    classes = {'WCoord': 'Coordinate', 'WPoint': 'GeoPoint', 'WLine': 'GeoLineString', 'WMPoint': 'MultiGeoPoint',
+               'WMLine': 'MultiGeoLineString', 'WMPoly': 'MultiGeoPolygon', 'WRing': 'GeoRing'}
+    classes.update({t: c for t, (c, _s) in poly_like.items()})
+
+    def R(cls, attr, after=None):
+        q = src.resolve(cls, attr, after=after)
+        if q is None:
+            raise Unsupported(f'no class of the hierarchy of `{cls}` defines `{attr}`')
+        return q
+
+    RINGS = 'List List WCoord'
+    insts = [
+        Inst('Coordinate.to_str', 'toStr', [('self', 'WCoord')], 'List Str', doc='`reverse` left at its default'),
+        Inst('Coordinate.to_str', 'toStrRev', [('self', 'WCoord'), ('reverse', 'Bool')], 'List Str'),
+        Inst('Coordinate.to_float', 'toFloat', [('self', 'WCoord')], 'List WFl', doc='`reverse` left at its default'),
+        Inst(R('GeoPoint', '_linear_ring_to_wkt'), 'linearRingToWkt', [('ring', 'List WCoord')], 'Str'),
+        Inst(R('GeoPoint', 'centroid'), 'pointCentroid', [('self', 'WPoint')], 'WCoord'),
+        Inst(R('GeoPoint', 'has_z'), 'pointHasZ', [('self', 'WPoint')], 'Bool'),
+        Inst(R('GeoPoint', 'has_m'), 'pointHasM', [('self', 'WPoint')], 'Bool'),
+        Inst(R('GeoPoint', 'to_wkt'), 'pointToWkt', [('self', 'WPoint')], 'Str'),
+        Inst(R('GeoLineString', 'has_z'), 'lineHasZ', [('self', 'WLine')], 'Bool'),
+        Inst(R('GeoLineString', 'has_m'), 'lineHasM', [('self', 'WLine')], 'Bool'),
+        Inst(R('GeoLineString', 'to_wkt'), 'lineToWkt', [('self', 'WLine')], 'Str'),
+    ]
+    for t, (cls, short) in poly_like.items():
+        insts.append(Inst(R(cls, 'linear_rings'), short + 'LinearRings', [('self', t)], RINGS,
+                          doc=f'as `{cls}` inherits it'))
+        insts.append(Inst(R(cls, 'to_wkt'), short + 'ToWkt', [('self', t)], 'Str', doc=f'as `{cls}` inherits it'))
+    ring_to_wkt = R('GeoRing', 'to_wkt')
+    insts += [
+        Inst(R('GeoRing', 'bounding_coords'), 'ringBoundingCoords', [('self', 'WRing')], 'Except List WCoord'),
+        Inst(R('GeoRing', 'linear_rings'), 'ringLinearRings', [('self', 'WRing')], 'Except ' + RINGS),
+        # what `super().to_wkt()` inside GeoRing.to_wkt reaches, on a ring (its `linear_rings()` is GeoRing's)
+        Inst(R('GeoRing', 'to_wkt', after=ring_to_wkt.rsplit('.', 1)[0]), 'ringSuperToWkt', [('self', 'WRing')], 'Except Str',
+             doc='as `super().to_wkt()` of a `GeoRing` reaches it'),
+        Inst(ring_to_wkt, 'ringToWkt', [('self', 'WRing')], 'Except Str'),
+        Inst(R('MultiGeoPoint', 'to_wkt'), 'multiPointToWkt', [('self', 'WMPoint')], 'Str'),
+        Inst(R('MultiGeoLineString', 'to_wkt'), 'multiLineToWkt', [('self', 'WMLine')], 'Str'),
+        Inst(R('MultiGeoPolygon', 'linear_rings'), 'multiPolyLinearRings', [('self', 'WMPoly')], 'List ' + RINGS),
+        Inst(R('MultiGeoPolygon', 'to_wkt'), 'multiPolyToWkt', [('self', 'WMPoly')], 'Str'),
+        # ---- readers: the hand-written logic behind the regular expressions
+        Inst('Coordinate.__eq__', 'coordEq', [('self', 'WCoord'), ('other', 'WCoord')], 'Bool'),
+        Inst('Coordinate.from_wkt', 'coordFromWkt', [('cls', 'WK'), ('wkt_str', 'WCoordT'), ('zm_order', 'Str')], 'Except WCoord'),
+        Inst(R('GeoPoint', '_parse_wkt_linear_ring'), 'parseLinearRing',
+             [('wkt_str', 'WText'), ('wkt_coords', 'WRingT'), ('min_points', 'Int'), ('closed', 'Bool')], 'Except List WCoord'),
+        Inst(R('GeoPoint', '_parse_wkt_linear_ring'), 'parseLinearRingDefault', [('wkt_str', 'WText'), ('wkt_coords', 'WRingT')],
+             'Except List WCoord', doc='`min_points`, `closed` left at their defaults'),
+    ]
+
+    def str_(tr, args):
+        if [a.typ for a in args] != ['WFl']:
+            raise Unsupported('str() of ' + ', '.join(a.typ for a in args))
+        return Val(f'(io.shw {args[0].text})', 'Str')
+
+    def circle(tr, args):
+        # `GeoCircle(self.center, self.outer_radius)` / `… self.inner_radius)`: only its `bounding_coords()` is read
+        which = {('WCen', 'WOutR'): 'outerC', ('WCen', 'WInR'): 'innerC'}.get(tuple(a.typ for a in args))
+        if which is None or any(a.path is None or not a.path.startswith('self.') for a in args):
+            raise Unsupported('GeoCircle(' + ', '.join(a.typ for a in args) + ')')
+        return Val(f'{tr.env["self"].text}.{which}', 'WHole')
+
+    ast = py2lean.ast
+
+    def re_findall_coord(tr, args):
+        if [a.typ for a in args] != ['WRingT']:
+            raise Unsupported('_RE_COORD.findall(' + ', '.join(a.typ for a in args) + ')')
+        return Val(args[0].text, 'List WCoordT')
+
+    def re_findall_zm(tr, args):
+        if [a.typ for a in args] != ['WText']:
+            raise Unsupported('_RE_ZM.findall(' + ', '.join(a.typ for a in args) + ')')
+        return Val(f'(tagList {args[0].text})', 'List Str')
+
+    def re_search_coord(tr, args):
+        if [a.typ for a in args] != ['WText']:
+            raise Unsupported('_RE_COORD.search(' + ', '.join(a.typ for a in args) + ')')
+        return Val(f'({args[0].text}.body.firstCoord)', 'Opt WMatch')
+
+    def dict_(tr, args):
+        if [a.typ for a in args] != ['List Prod Chr WTok']:
+            raise Unsupported('dict(' + ', '.join(a.typ for a in args) + ')')
+        v = Val(f'(dictFloat io {args[0].text})', 'ZmDict')
+        v.raises = True                            # float() of a token that is not a number: ValueError
+        return v
+
+    def method(tr, recv, attr, args):
+        if recv.typ == 'WCoordT' and attr == 'split' and len(args) == 1 and isinstance(args[0], ast.Constant) and args[0].value == ' ':
+            return Val(recv.text, 'List Str')
+        if recv.typ == 'ZmDict' and attr == 'get' and len(args) == 1 and isinstance(args[0], ast.Constant) \
+                and isinstance(args[0].value, str) and len(args[0].value) == 1 and args[0].value.isalpha():
+            return Val(f"(dictGet {recv.text} '{args[0].value}')", 'Opt WFl')
+        return None
+
+    def call_hook(tr, e):
+        f = e.func
+        # `map(float, xs)` is lazy: a list of tokens, each converted when (and if) it is consumed
+        if isinstance(f, ast.Name) and f.id == 'map' and len(e.args) == 2 and not e.keywords and isinstance(e.args[0], ast.Name) \
+                and e.args[0].id == 'float':
+            xs = tr.expr(e.args[1])
+            if xs.typ != 'List Str':
+                raise Unsupported(f'map(float, {xs.typ})')
+            return Val(xs.text, 'List WTok')
+        # `Coordinate(*two_strings, z=…, m=…)`: `Coordinate.__init__` (float() of both, then the range wrapping: C08)
+        if isinstance(f, ast.Name) and f.id == 'Coordinate' and len(e.args) == 1 and isinstance(e.args[0], ast.Starred) \
+                and [k.arg for k in e.keywords] == ['z', 'm']:
+            inner = e.args[0].value
+            if isinstance(inner, ast.Call) and isinstance(inner.func, ast.Name) and inner.func.id == 'cast' and len(inner.args) == 2:
+                inner = inner.args[1]
+            xs, z, m = tr.expr(inner), tr.expr(e.keywords[0].value), tr.expr(e.keywords[1].value)
+            if (xs.typ, z.typ, m.typ) != ('List Str', 'Opt WFl', 'Opt WFl'):
+                raise Unsupported(f'Coordinate(*{xs.typ}, z={z.typ}, m={m.typ})')
+            v = Val(f'(coordOfStrs io {xs.text} {z.text} {m.text})', 'WCoord')
+            v.raises = True
+            return v
+        return None
+
+    def bind_keywords(tr, e):
+        # keyword arguments of a method call put in their positions (parameters skipped in between take their default)
+        f = e.func
+        if not isinstance(f, ast.Attribute) or not isinstance(f.value, ast.Name) or any(k.arg is None for k in e.keywords):
+            return None
+        cls = f.value.id if f.value.id in src.bases and f.value.id not in tr.env else \
+            tr.u.class_of(tr.env[f.value.id].typ) if f.value.id in tr.env else None
+        q = src.resolve(cls, f.attr) if cls in src.bases else None
+        if q is None or len(e.keywords) != 1:
+            return None                          # (several keyword values: their evaluation order would have to be kept)
+        fn = src.get(q)
+        names = [a.arg for a in fn.args.args]
+        if 'staticmethod' not in src.decorators(q):
+            names = names[1:]
+        defaults = dict(zip(reversed(names), reversed(fn.args.defaults)))
+        kw = {k.arg: k.value for k in e.keywords}
+        if not set(kw) <= set(names[len(e.args):]):
+            return None
+        pos = list(e.args)
+        for n in names[len(e.args): max(names.index(k) for k in kw) + 1]:
+            if n in kw:
+                pos.append(kw[n])
+            elif n in defaults:
+                pos.append(defaults[n])
+            else:
+                return None
+        return ast.Call(func=f, args=pos, keywords=[])
+
+    def eq_hook(tr, a, b):
+        if a.typ == b.typ == 'WFl':
+            return Val(f'(io.val {a.text} == io.val {b.text})', 'Bool')         # float == float: equal values
+        if a.typ == b.typ == 'Opt WFl':
+            return Val(f'(GV.Wkt.optEqv io {a.text} {b.text})', 'Bool')         # None == None, float == float, else False
+        return None
+
+    def super_method(tr, attr, args):
+        # `super().m(**kwargs)` inside a method of class C on a receiver of class D: the next definition behind C in D's order
+        owner = tr.inst.qual.rsplit('.', 1)[0]
+        recv = tr.env.get('self')
+        cls = tr.u.class_of(recv.typ) if recv else None
+        q = src.resolve(cls, attr, after=owner) if cls else None
+        if q is None or args:
+            raise Unsupported(f'`{tr.inst.qual}`: super().{attr}')
+        return tr.apply(tr.wk_find(q, (), recv.typ), [recv])
+
+    attr = {('WCoord', 'longitude'): ('{}.lon', 'WFl'), ('WCoord', 'latitude'): ('{}.lat', 'WFl'),
+            ('WCoord', 'z'): ('{}.z', 'Opt WFl'), ('WCoord', 'm'): ('{}.m', 'Opt WFl'),
+            ('WPoint', 'coordinate'): ('{}', 'WCoord'), ('WLine', 'vertices'): ('{}', 'List WCoord'),
+            ('WMPoint', 'geoshapes'): ('{}', 'List WPoint'), ('WMLine', 'geoshapes'): ('{}', 'List WLine'),
+            ('WMPoly', 'geoshapes'): ('{}', 'List WPolygon'),
+            ('WRing', 'holes'): ('{}.holes', 'List WHole'), ('WRing', 'angle_min'): ('{}.amin', 'R'),
+            ('WRing', 'angle_max'): ('{}.amax', 'R'), ('WRing', 'center'): ('()', 'WCen'),
+            ('WRing', 'outer_radius'): ('()', 'WOutR'), ('WRing', 'inner_radius'): ('()', 'WInR')}
+    abstract = {('WHole', 'bounding_coords', ()): ('{0}', 'List WCoord'),
+                ('WRing', '_draw_bounds', ()): ('({0}.outerB, {0}.innerB)', 'Prod (List WCoord) (List WCoord)'),
+                ('WMatch', 'group', ()): ('{0}', 'WCoordT')}
+    for t in poly_like:
+        attr[(t, 'holes')] = ('{}.holes', 'List WHole')
+        attr[(t, 'outline')] = ('{}.outline', 'List WCoord')
+        abstract[(t, 'bounding_coords', ())] = ('{0}.outline', 'List WCoord')
+    header = '\n'.join([
+        'variable {F : Type}', '',
+        '/-- what the WKT writers read of a `GeoRing`: the two angles, `GeoCircle(center, outer_radius / inner_radius)',
+        '    .bounding_coords(**kwargs)`, the pair `_draw_bounds(**kwargs)` returns, and the holes\' `bounding_coords(**kwargs)` -/',
+        'structure RingView (F : Type) where',
+        '  amin : Rat', '  amax : Rat',
+        '  outerC : List (GV.Wkt.Coord F)', '  innerC : List (GV.Wkt.Coord F)',
+        '  outerB : List (GV.Wkt.Coord F)', '  innerB : List (GV.Wkt.Coord F)',
+        '  holes : List (List (GV.Wkt.Coord F))', '',
+        '/-- `_RE_ZM.findall(wkt_str)`: the Z/M tag of the text as a string, if the text has one -/',
+        'def tagList (w : GV.Wkt.Wkt) : List String := if w.tag.isEmpty then [] else [String.ofList w.tag]', '',
+        '/-- `dict(zip(keys, map(float, tokens)))`: `map` is lazy, only the tokens `zip` pairs with a key are converted -/',
+        'def dictFloat (io : GV.Wkt.NumIO F) : List (Char × String) → Except String (List (Char × F))',
+        '  | [] => .ok []',
+        '  | (k, t) :: r =>',
+        '    match io.rd t with',
+        '    | none => .error "ERR:Value"',
+        '    | some x =>',
+        '      match dictFloat io r with',
+        '      | .error e => .error e',
+        '      | .ok d => .ok ((k, x) :: d)', '',
+        '/-- `d.get(k)` of a dict built from pairs: the last pair with that key -/',
+        'def dictGet (d : List (Char × F)) (k : Char) : Option F := (d.reverse.find? (·.1 == k)).map (·.2)', '',
+        '/-- `Coordinate(*strs, z=z, m=m)`: two strings for longitude and latitude (`float()` of each: `ValueError`), then',
+        '    the range wrapping of `Coordinate.__init__` (the model\'s `mkCoord`, tied to the source by C08) -/',
+        'def coordOfStrs (io : GV.Wkt.NumIO F) : List String → Option F → Option F → Except String (GV.Wkt.Coord F)',
+        '  | [lonT, latT], z, m =>',
+        '    match io.rd lonT, io.rd latT with',
+        '    | some lon, some lat => .ok (GV.Wkt.mkCoord io lon lat z m)',
+        '    | _, _ => .error "ERR:Value"',
+        '  | _, _, _ => .error "ERR:Type"'])
+    classes['WK'] = 'GeoPoint'          # `cls` inside a reader: any shape class (they inherit `_parse_wkt_linear_ring` alike)
+
+    def local_type(qual, name):
+        if qual.endswith('.to_wkt'):
+            return {'bbox_strs': 'List Str'}.get(name)
+        return {('Coordinate.from_wkt', 'zm'): 'ZmDict'}.get((qual, name))
+
+    def expr_stmt(tr, value):
+        # `warn_once(…)` only logs
+        return isinstance(value, ast.Call) and isinstance(value.func, ast.Name) and value.func.id == 'warn_once'
+
+    return Unit('SrcWkt', src, 'GV.Src.Wkt', ['GeoVerif.Model.Wkt', 'GeoVerif.Model.PyPrelude', 'GeoVerif.Model.PyPreludeSeq'],
+                insts, classes, header=header, attr_types=attr, abstract=abstract,
+                intrinsics={'str': str_, 'GeoCircle': circle, '_RE_COORD.findall': re_findall_coord,
+                            '_RE_ZM.findall': re_findall_zm, '_RE_COORD.search': re_search_coord, 'dict': dict_},
+                hooks={'isinstance': lambda typ: {'WCoord': {'Coordinate'}}.get(typ), 'wkt_text': True,
+                       'resolve': src.resolve, 'always_truthy': ('WMatch',), 'super_method': super_method,
+                       'local_type': local_type, 'method': method, 'call_whole': call_hook, 'bind_keywords': bind_keywords,
+                       'eq': eq_hook, 'expr_stmt': expr_stmt},
+                ctx_params=[('io', 'GV.Wkt.NumIO F')])
+
+
 UNITS = {'SrcTime': time_unit, 'SrcBase': base_unit, 'SrcMulti': multi_unit, 'SrcColl': coll_unit, 'SrcPip': pip_unit,
          'SrcMember': member_unit, 'SrcTrack': track_unit, 'SrcRelate': relate_unit, 'SrcCoord': coord_unit,
          'SrcCurved': curved_unit, 'SrcCalc': calc_unit}
@@ -1604,6 +1863,7 @@ UNITS['SrcMut'] = mut_unit
 UNITS['SrcGeohash'] = geohash_unit
 UNITS['SrcEq'] = eq_unit
 UNITS['SrcSweep'] = sweep_unit
+UNITS['SrcWkt'] = wkt_unit
 
 
 def render(name):
